@@ -159,10 +159,11 @@ example : [2, 0, 1].Perm (List.range 3) := by decide
 /-! ## (2) the model -/
 
 /-- **aggregate_refines.** On the property's domain — numbers, empty cells and non-numeric text in
-    rectangular ranges, such values as scalars — SUM, AVERAGE, MIN, MAX of the model are the sum,
-    mean, minimum, maximum of the addressed values (`getD 0`: when no number is addressed the
-    statement demands nothing and the code answers 0). -/
-theorem aggregate_refines {ext : Ext} {as : List A} (h : ∀ a ∈ as, ArgOK (InDom ext) a) :
+    rectangular ranges, such values as scalars, and BLANK objects (a reference to a cell that was
+    never stored in the model: skipped, not counted as 0) — SUM, AVERAGE, MIN, MAX of the model are
+    the sum, mean, minimum, maximum of the addressed values (`getD 0`: when no number is addressed
+    the statement demands nothing and the code answers 0). -/
+theorem aggregate_refines {ext : Ext} {as : List A} (h : ∀ a ∈ as, ArgOK (InDomB ext) a) :
     (SUM ext (as.map conc)).map Num.toRat = .ok (sum (addressed as)) ∧
     (AVERAGE ext (as.map conc)).map Num.toRat = .ok ((mean (addressed as)).getD 0) ∧
     (MIN ext (as.map conc)).map Num.toRat = .ok ((minimum (addressed as)).getD 0) ∧
@@ -176,36 +177,26 @@ example : InDom Ext.none (.text "abc".toList) := by
 example : InDom Ext.none (.text []) := by
   show textNumber Ext.none [] = NumR.xl Code.value; decide
 example : ∀ a ∈ [A.range [[S.num (.int 1), S.text []], [S.text "abc".toList, S.num (.flt (1 / 2))]],
-    A.scalar (S.num (.int 3))], ArgOK (InDom Ext.none) a := by
+    A.scalar (S.num (.int 3)), A.scalar S.blank], ArgOK (InDomB Ext.none) a := by
   intro a ha
   simp only [List.mem_cons, List.not_mem_nil, or_false] at ha
-  rcases ha with rfl | rfl
+  rcases ha with rfl | rfl | rfl
   · refine ⟨⟨2, by simp⟩, ?_⟩
     intro r hr x hx
     simp only [List.mem_cons, List.not_mem_nil, or_false] at hr
     rcases hr with rfl | rfl <;> simp only [List.mem_cons, List.not_mem_nil, or_false] at hx <;>
-      rcases hx with rfl | rfl <;> trivial
-  · trivial
+      rcases hx with rfl | rfl <;> exact Or.inr (by trivial)
+  · exact Or.inr trivial
+  · exact Or.inl rfl
 
-/-- SUM also ignores BLANK objects (a reference to a never-stored cell): they add `0.0`. -/
-theorem sum_refines_with_blanks {ext : Ext} {as : List A} (h : ∀ a ∈ as, ArgOK (InDomB ext) a) :
-    (SUM ext (as.map conc)).map Num.toRat = .ok (sum (addressed as)) := by
-  have hc : Clean ext (flatArgs (as.map conc)) := by
-    rw [flatArgs_conc h]; exact clean_domB (addressed_ok h)
-  simp only [SUM, validate_clean hc, Except.map, sumBody_toRat, flatArgs_conc h,
-    rsum_kept_domB (addressed_ok h), sum]
-
-/- Known finding D1405.  The full-strength statement of `aggregate_refines` would also admit a BLANK
-   scalar (a reference to a cell that was never stored in the model):
-
-     theorem aggregate_refines_full … (h : ∀ a ∈ as, ArgOK (InDomB ext) a) : … AVERAGE … MIN … MAX …
-
-   It is false for the model (and the code): the BLANK casts to 0.0 and is kept. -/
-example : AVERAGE Ext.none [.scalar .xBlank, .scalar (.xNumber (.int 4))] = .ok (.flt 2) := by
+/-- D1405 (fixed): a BLANK scalar — a reference to a never-stored cell — is skipped, not counted as 0 -/
+example : AVERAGE Ext.none [.scalar .xBlank, .scalar (.xNumber (.int 4))] = .ok (.flt 4) := by
+  decide +kernel
+example : MIN Ext.none [.scalar .xBlank, .scalar (.xNumber (.int 4))] = .ok (.int 4) := by
+  decide +kernel
+example : MAX Ext.none [.scalar .xBlank, .scalar (.xNumber (.int (-4)))] = .ok (.int (-4)) := by
   decide +kernel
 example : mean [S.blank, S.num (.int 4)] = some 4 := by decide +kernel
-example : MIN Ext.none [.scalar .xBlank, .scalar (.xNumber (.int 4))] = .ok (.flt 0) := by
-  decide +kernel
 
 /-- **count_spec** (partial: D1404).  COUNT is the count of numbers among the addressed values — for
     every typed value, not only the domain — provided at most 255 values are addressed. -/
@@ -408,9 +399,10 @@ example : sum (S.num (.int 2) :: (List.replicate 101 (S.text []) ++ [S.num (.int
 example : (S.num (.int 2) :: (List.replicate 101 (S.text []) ++ [S.num (.int 4)])) ≠ [] := by simp
 
 /-- **Through formulas.**  An aggregate formula over ranges of a compiled model and scalar operands
-    (values of the domain, ranges rectangular with at most `MAX_EMPTY` empty cells) computes the
+    (values of the domain, BLANK references included; ranges rectangular with at most `MAX_EMPTY`
+    empty cells) computes the
     folds of the statement over exactly the cells of the ranges. -/
-theorem formula_refines_partial {ext : Ext} {as : List A} (h : ∀ a ∈ as, ArgOK (InDom ext) a)
+theorem formula_refines_partial {ext : Ext} {as : List A} (h : ∀ a ∈ as, ArgOK (InDomB ext) a)
     (hfew : ∀ a ∈ as, ∀ rows, a = A.range rows →
       (∀ r ∈ rows, r ≠ []) ∧ (rows.flatten.filter cellEmpty).length ≤ Gen.C14.maxEmpty) :
     let args := as.map fun a => (match a with
